@@ -193,6 +193,21 @@ func (s *Session) Observe(id string, propOK bool, class string, nontrivial bool,
 	}
 }
 
+// Begin notes the case about to run in $VERIF_OUT/<prop>.<lane>.current, so that when the whole
+// test process dies (panic in a background goroutine, fatal error, deadlock timeout) bin/check
+// can name the input that was being processed.
+func (s *Session) Begin(id, human string) {
+	dir := os.Getenv("VERIF_OUT")
+	if dir == "" {
+		return
+	}
+	if len(human) > 4000 {
+		human = human[:4000]
+	}
+	b, _ := json.Marshal(map[string]string{"lane": s.lane, "case": id, "human": human})
+	os.WriteFile(filepath.Join(dir, s.prop+"."+s.lane+".current"), b, 0o644)
+}
+
 // Crash records a panic caught while running the implementation.
 func (s *Session) Crash(id, human, detail string, class string) {
 	s.extra = append(s.extra, Mismatch{Case: id, Human: human, Impl: detail, PropOK: false, Class: class, Kind: "crash"})
@@ -321,6 +336,7 @@ func (s *Session) Finish() {
 	if err := os.WriteFile(filepath.Join(dir, s.prop+"."+s.lane+".json"), b, 0o644); err != nil {
 		s.t.Fatalf("write result: %v", err)
 	}
+	os.Remove(filepath.Join(dir, s.prop+"."+s.lane+".current"))
 	keys := make([]string, 0, len(s.hist))
 	for k := range s.hist {
 		keys = append(keys, k)
